@@ -107,6 +107,8 @@ v('C07', 'fire', KA, 'cho_solve((L, True), HP', 'cho_solve((L, False), HP')
 v('C07', 'fire', KA, 'S = HP @ H.T + R', 'S = HP @ H.T')
 v('C07 C19', 'fire', KA, 'K = cho_solve((L, True), HP, overwrite_b=True).T', 'K = cho_solve((L, True), P, overwrite_b=True).T')
 v('C07', 'silent', KA, 'U = np.eye(len(x)) - K.dot(H)', 'U = np.identity(len(x)) - K @ H')
+v('C07 C19', 'fire', KA, '    return (x + K @ (z - H @ x), U.dot(P).dot(U.T) + K.dot(R).dot(K.T),', '    x += K.dot(e)\n    return (x, U.dot(P).dot(U.T) + K.dot(R).dot(K.T),', 'seeded C07 round 5: posterior mean accumulated into the caller\'s prior')
+v('C07', 'silent', KA, '    return (x + K @ (z - H @ x), U.dot(P).dot(U.T) + K.dot(R).dot(K.T),', '    x = x + K.dot(e)\n    return (x, U.dot(P).dot(U.T) + K.dot(R).dot(K.T),', 're-binding the local is not a write into the argument')
 v('C11', 'fire', 'filters.py', '    trajectory.alt += error_nav.down', '    trajectory.alt -= error_nav.down', 'compensated altitude with the wrong sign')
 v('C11', 'fire', 'filters.py', '    trajectory.lon -= error_nav.east / rp * transform.RAD_TO_DEG', '    trajectory.lon -= error_nav.east / rn * transform.RAD_TO_DEG', 'compensated longitude with the meridian radius')
 v('C11', 'fire', 'filters.py', '    trajectory.lat -= error_nav.north / rn * transform.RAD_TO_DEG', '    trajectory.lat -= error_nav.north / rn', 'compensated latitude in radians')
@@ -118,6 +120,9 @@ v('C14', 'fire', 'inertial_sensor.py', '                if actual != nominal:', 
 v('C14', 'silent', 'inertial_sensor.py', '                if actual != nominal:', '                if not actual == nominal:', 'same exact test, other spelling')
 v('C14', 'silent', 'inertial_sensor.py', '                if actual != nominal:', '                if actual - nominal != 0:', 'same exact test on the deviation')
 FL = 'filters.py'
+v('C13 C12 C09', 'fire', FL, '    integrator = strapdown.Integrator(initial_pva, with_altitude)', '    integrator = strapdown.Integrator(initial_pva)', 'clause review: the altitude mode does not reach the integrator')
+v('C13 C11', 'fire', FL, '    times = trajectory_nominal.index\n\n    error_model = InsErrorModel(with_altitude)', '    times = trajectory_nominal.index\n\n    error_model = InsErrorModel()', 'clause review: the altitude mode does not reach the error model of the feedforward filter')
+v('C13', 'silent', FL, '    integrator = strapdown.Integrator(initial_pva, with_altitude)', '    integrator = strapdown.Integrator(initial_pva, with_altitude=with_altitude)')
 v('C11', 'fire', FL, '        pva_old = trajectory_nominal.iloc[index]', '        pva_old = trajectory.iloc[index]', 'survey: propagation matrices at the computed trajectory')
 v('C11', 'fire', FL, 'increments.loc[np.nextafter(time, next_time) : next_time]', 'increments.loc[time : next_time]', 'averaging batch includes the increment of the previous interval')
 v('C11', 'fire', FL, 'increments.loc[np.nextafter(time, next_time) : next_time]', 'increments.loc[np.nextafter(time, next_tim) : next_time]', 'a misspelt name on the branch that needs increments')
